@@ -124,7 +124,8 @@ def check_roundtrip(spec):
         ensure(all(os.path.exists(f) for f in files) and len(files) == (1 if w["layout"] == "single" else src.npartitions), f"to_csv returned {files} for {src.npartitions} partitions", "files", **sig)
         # the files, concatenated in order and read by pandas, hold exactly the frame (writer judged on its own)
         # (a header-only file of an empty partition has no values to type: pandas itself reads object columns from it)
-        pieces = [x for x in (pd.read_csv(f, **kw) for f in files) if len(x)]
+        with impl("pandas.read_csv of the files written by to_csv", stage="write", **sig):
+            pieces = [x for x in (pd.read_csv(f, **kw) for f in files) if len(x)]
         compare(pd.concat(pieces) if pieces else want, want, "files written by to_csv, read by pandas", dict(sig, stage="write"))
         with impl("read_csv of the written files", stage="read", **sig), C.quiet():
             back = dd.read_csv(target, blocksize=bs, **kw)
@@ -253,7 +254,7 @@ SUBCHECKS = [
         "roundtrip",
         check_roundtrip,
         strategy=lambda tier: roundtrip_case(),
-        n={"quick": 700, "thorough": 15000},
+        n={"quick": 1200, "thorough": 20000},
         nontrivial=_rows_text_short,
         classes=classes,
         doc="to_csv (directory / name_function / single_file) -> read_csv(blocksize) == pandas' own CSV round trip",
@@ -262,7 +263,7 @@ SUBCHECKS = [
         "read",
         check_read,
         strategy=lambda tier: read_case(),
-        n={"quick": 1200, "thorough": 25000},
+        n={"quick": 3000, "thorough": 40000},
         nontrivial=_rows_text_short,
         classes=classes,
         doc="dd.read_csv(blocksize) == pandas.read_csv on generated CSV dialects",
